@@ -43,15 +43,15 @@ TABLE = [
     ("SolverDiagonal", ["diag", "cdiag"], ["dense", "csc"]),
     ("SolverDenseQR", ALLC, ["dense"]),
     ("SolverDenseLU", ALLC, ["dense"]),
-    ("SolverDenseCholesky", ["spd", "hpd", "sym", "herm"], ["dense"]),       # sym/herm: documented LDL fall-back
+    ("SolverDenseCholesky", ["spd", "hpd", "sym", "herm", "nspd", "nhpd"], ["dense"]),       # sym/herm/negative definite: documented LDL fall-back
     ("SolverDenseLDL", ["diag", "spd", "hpd", "sym", "herm", "csym"], ["dense"]),
     ("SolverDenseLDL:hermitian=flag", ["spd", "hpd", "sym", "herm", "csym"], ["dense"]),
-    ("SolverSparseLU", ALLC, ["csc", "csr"]),
+    ("SolverSparseLU", ALLC, ["csc", "csr", "csc_array", "csr_array"]),
     ("CG:Preconditioner", ["spd", "hpd"], ["dense", "csc"]),
     ("CG:DampedJacobi", ["spd", "hpd"], ["csc", "csr"]),
     ("CG:SOR", ["spd", "hpd"], ["csc"]),
     ("CG:ILU", ["spd", "hpd"], ["csc"]),
-    ("auto", ALLC, ["dense", "csc"]),
+    ("auto", ALLC + ["nspd", "nhpd"], ["dense", "csc", "csr_array", "coo_array"]),
     # the linear-dependency-aware wrapper is a solver like the others (LinSolve's default): judged to its own tolerance; its history
     # semantics are C06's subject, here it only has to solve what is asked for every matrix class
     ("LDAWrapper:SolverDenseLU", ALLC, ["dense"]),
@@ -148,6 +148,13 @@ def judge(ctx, solver, A, cond, iterative_tol, allow_zero_col, rng, label, super
                     if cb or cA:
                         x0 = x0 + 1j * rng.standard_normal(b.shape)
                     x0 = x0 * bscale / max(nM / np.sqrt(n), 1e-300)    # a guess of the magnitude of the solution
+                    x0fac = 1.0
+                    if rng.random() < 0.3:
+                        # a poor guess (the solution of a load 10-300 times larger): worse than no guess, but the requested accuracy is
+                        # relative to |b| and stays attainable (the rounding level of the first residual is eps*cond*x0fac)
+                        x0fac = 10.0 ** rng.uniform(1.0, 2.5)
+                        x0 = x0 * x0fac
+                        ctx.count("poor_initial_guesses")
                     if shape == "blkscaled":
                         # warm start: the large load cases are (almost) solved already, the small one is not
                         xs = np.linalg.solve(M, b)
@@ -181,7 +188,8 @@ def judge(ctx, solver, A, cond, iterative_tol, allow_zero_col, rng, label, super
                         require(float(np.max(r[~nz])) <= 10 * iterative_tol * r0, "zero-column-gives-nonzero-answer",
                                 residual=float(np.max(r[~nz])), **desc)
                 if iterative_tol is not None:
-                    ok = rel <= 10 * iterative_tol
+                    fl = 0.0 if x0 is None else 1e2 * np.finfo(float).eps * cond * (x0fac if shape != "blkscaled" else 1.0)
+                    ok = rel <= max(10 * iterative_tol, fl)
                     bw = None
                 else:
                     bw = float(np.max(r / (nM * np.linalg.norm(xx, axis=0) + nb + 1e-300)))
